@@ -100,7 +100,7 @@ func TestDescJSONAndDeterminism(t *testing.T) {
 		}
 	}
 	want := `{"seed":5,"blocks":[{"type":"dyn","lshape":"flat","dshape":"none","toks":"lits","n":3,"repeat":true,` +
-		`"cross":false,"fullhclen":false,"maxh":false,"sync":true,"worstcl":false,"alt258":false}],"fault":{"kind":"missingEOB","block":0}}`
+		`"cross":false,"fullhclen":false,"maxh":false,"sync":true,"worstcl":false,"alt258":false,"zerosplit":false,"dup":0}],"fault":{"kind":"missingEOB","block":0}}`
 	d := Desc{Seed: 5, Blocks: []BlockDesc{{Type: "dyn", LShape: "flat", DShape: "none", Toks: "lits", N: 3, Repeat: true, SyncBefore: true}},
 		Fault: &Fault{Kind: "missingEOB"}}
 	if got := descJSON(d); got != want {
@@ -399,5 +399,44 @@ func TestWorstCLAndAlt258(t *testing.T) {
 	got, err := io.ReadAll(flate.NewReader(bytes.NewReader(w.Bytes())))
 	if err != nil || len(got) != 259 {
 		t.Errorf("284+31: compress/flate gives %d bytes, %v", len(got), err)
+	}
+}
+
+// A zero run continued with "repeat previous" (16) after a 17/18 item or an explicit zero, and a
+// block repeated bit for bit behind a block of another type: legal, accepted by compress/flate.
+func TestZeroSplitAndDup(t *testing.T) {
+	split := 0
+	for seed := int64(1); seed <= 80; seed++ {
+		d := Desc{Seed: seed, Blocks: []BlockDesc{
+			{Type: "dyn", LShape: []string{"flat", "skew", "random", "freq"}[seed%4], DShape: []string{"flat", "random", "single", "none"}[seed%4],
+				Toks: []string{"lits", "near", "mixed", "lits"}[seed%4], N: 10 + int(seed), Repeat: true, Cross: seed%2 == 0, ZeroSplit: true},
+			{Type: []string{"fixed", "stored", "fixed"}[seed%3], Toks: "lits", N: 5},
+			{Type: "dyn", LShape: "flat", DShape: "flat", Toks: "lits", N: 3, Dup: 2}}}
+		stream, want, err := d.Build()
+		if err != nil {
+			t.Fatal(err)
+		}
+		got, err := io.ReadAll(flate.NewReader(bytes.NewReader(stream)))
+		if err != nil || !bytes.Equal(got, want) {
+			t.Fatalf("seed %d: compress/flate: err=%v, %d bytes, want %d", seed, err, len(got), len(want))
+		}
+		r := refinflate.Inflate(stream, refinflate.Options{})
+		if r.State != "done" || !bytes.Equal(r.Out, want) || len(r.Blocks) != 3 {
+			t.Fatalf("seed %d: reference: %s %s, %d blocks", seed, r.State, r.Err, len(r.Blocks))
+		}
+		if !bytes.Equal(r.Blocks[0].LitLens, r.Blocks[2].LitLens) || r.Blocks[0].HdrBits != r.Blocks[2].HdrBits {
+			t.Fatalf("seed %d: the third block does not repeat the header of the first", seed)
+		}
+	}
+	lens := make([]uint8, 60)
+	lens[0], lens[40], lens[59] = 3, 3, 2
+	seq := RLEZeroSplit(lens)
+	for i := 1; i < len(seq); i++ {
+		if seq[i].Sym == 16 && (seq[i-1].Sym == 17 || seq[i-1].Sym == 18 || seq[i-1].Sym == 0 || seq[i-1].Sym == 16) {
+			split++
+		}
+	}
+	if split == 0 {
+		t.Errorf("no repeat item directly behind a zero run: %v", seq)
 	}
 }
